@@ -414,6 +414,12 @@ type server struct {
 	rt     *recTransport
 	// WriteHeader calls of the last request served through the httptest server
 	lastWriteHeaders int
+	// stress mode (C19): the handler is a pure echo, nothing shared is written
+	stressMode   bool
+	stressType   string
+	stressTS     *httptest.Server
+	stressHC     *http.Client
+	stressClient any
 }
 
 var servers = map[string]*server{}
@@ -430,6 +436,9 @@ func getServer(pkg, prefix string) (*server, error) {
 	s := &server{api: api, cur: &script{}, ob: &obs{}}
 	if api.NewServer != nil {
 		cb := func(ctx context.Context, op string, req, params any) (any, error) {
+			if s.stressMode {
+				return s.stressEcho(op, req, params)
+			}
 			s.ob.mu.Lock()
 			defer s.ob.mu.Unlock()
 			s.ob.HandlerCalled++
@@ -507,6 +516,9 @@ func getServer(pkg, prefix string) (*server, error) {
 			return nil
 		}
 		mw := func(req middleware.Request, next middleware.Next) (middleware.Response, error) {
+			if s.stressMode {
+				return next(req)
+			}
 			s.ob.mu.Lock()
 			s.ob.MwCalled++
 			s.ob.MwOp = req.OperationName
@@ -716,6 +728,16 @@ func handle(req *request) (ans map[string]any) {
 		return
 	}
 	switch req.Cmd {
+	case "stress":
+		var sr stressReq
+		b, _ := json.Marshal(req.Value)
+		dec := json.NewDecoder(bytes.NewReader(b))
+		dec.UseNumber()
+		if err := dec.Decode(&sr); err != nil {
+			ans["error"] = "bad stress request: " + err.Error()
+			return
+		}
+		s.stress(&sr, ans)
 	case "find":
 		u := &url.URL{Path: req.Path, RawPath: req.RawPath}
 		ri, ok := s.api.FindPath(s.h, req.Method, u)
